@@ -672,6 +672,12 @@ class Repo:
             raise NotConst(ast.unparse(e))
         if isinstance(e, ast.Call):
             q = self.resolve(module, None, e.func)
+            if q == "textwrap.dedent" and len(e.args) == 1 and not e.keywords:
+                import textwrap
+                v = f(e.args[0])
+                if isinstance(v, str):
+                    return textwrap.dedent(v)
+                raise NotConst("dedent")
             if q == "re.escape" and len(e.args) == 1:
                 import re
                 return re.escape(f(e.args[0]))
